@@ -12,6 +12,12 @@ EXTENDS Integers, Sequences, FiniteSets
 NF(G) == Len(G.faces) \div 3
 Faces(G) == 0..(NF(G) - 1)
 NA(G) == Len(G.atts)
+\* the projection itself is well formed: faces come in threes and name existing points, every attribute has one value id per point.
+\* Every relation below indexes pt by face entries, so a reader that returns garbage indices is rejected here, not by an evaluation error.
+WellFormed(G) == /\ G.np >= 0 /\ Len(G.faces) % 3 = 0
+                 /\ \A i \in 1..Len(G.faces) : G.faces[i] \in 0..(G.np - 1)
+                 /\ Len(G.pt) = Len(G.atts)
+                 /\ \A a \in 1..Len(G.pt) : Len(G.pt[a]) = G.np
 \* value tuple of point p over all attributes
 PointTuple(G, p) == [a \in 1..NA(G) |-> G.pt[a][p + 1]]
 Corner(G, f, k) == PointTuple(G, G.faces[3 * f + k + 1])
@@ -36,6 +42,7 @@ SameAttributes(A, B) == A.atts = B.atts
 \* sequential methods keep point and face order; kd-tree may permute points; Edgebreaker may reorder everything,
 \* may drop triangles that repeat a position entry (permitted, not required) and points used by no triangle
 Equivalent(A, B, method, isMesh) ==
+  /\ WellFormed(A) /\ WellFormed(B)
   /\ SameAttributes(A, B)
   /\ IF ~isMesh THEN
         IF method = "seq" THEN A.np = B.np /\ A.pt = B.pt
